@@ -144,6 +144,19 @@ class VTask(Task):
                 if n < 0 or c < n:
                     raise TransientError(f"scripted transient failure {c + 1}")
             return self._finish(ref, beh, rec, then)
+        if kind == "script":
+            # a scripted sequence of 'R' (still running, poll again) and 'T' (transient failure with
+            # saved progress) steps, then the final outcome; the step index travels in the stage context
+            key = f"_s{i}"
+            c = int(stage.context.get(key, 0) or 0)
+            rec["counter"] = c
+            steps = beh.get("steps", "")
+            if c < len(steps):
+                upd = {key: c + 1, f"_sv{i}": f"{ref}.step{i}@{rec['iter']}.{c + 1}"}
+                if steps[c] == "R":
+                    return TaskResult.running(context=upd)
+                raise TransientError(f"scripted transient failure at step {c + 1}", context_update=upd)
+            return self._finish(ref, beh, rec, then)
         if kind == "jump":
             done = int(stage.context.get("_jump_count", 0) or 0)
             rec["counter"] = done
